@@ -118,23 +118,25 @@ func (s *GRPCServer) Init() error {
 // grpc.Broker if present.
 func (s *GRPCServer) Stop() {
 	verifhook.Point("grpcserver.stop")
-	s.server.Stop()
-
+	// Close the broker first: once the server has stopped, Serve returns and
+	// the plugin process may exit before anything after this point runs.
 	if s.broker != nil {
 		s.broker.Close()
 		s.broker = nil
 	}
+
+	s.server.Stop()
 }
 
 // GracefulStop calls GracefulStop on the underlying grpc.Server and Close on
 // the underlying grpc.Broker if present.
 func (s *GRPCServer) GracefulStop() {
-	s.server.GracefulStop()
-
 	if s.broker != nil {
 		s.broker.Close()
 		s.broker = nil
 	}
+
+	s.server.GracefulStop()
 }
 
 // Config is the GRPCServerConfig encoded as JSON then base64.
